@@ -203,6 +203,67 @@ fn xf_family(t: &mut Trace, seed: u64, thorough: bool, engines: &[&'static str])
     }
 }
 
+/// Large transforms against the contract through impulse responses: the FFT of the coefficient vector v*e_i is
+/// v * X_i(skew_delta + p), which the specification evaluates cheaply for any size; the IFFT of those values must
+/// be the impulse again.  (By linearity every defect of a transform shows in some impulse response.)
+fn impulse_family(t: &mut Trace, seed: u64, thorough: bool, engines: &[&'static str]) {
+    let mut rng = util::rng(seed, 0x1a9);
+    let sizes: Vec<usize> = if thorough { vec![64, 128, 256, 512, 1024, 2048, 4096, 8192, 16384, 32768, 65536] } else { vec![128, 512, 2048, 8192, 32768] };
+    for (si, size) in sizes.iter().enumerate() {
+        let size = *size;
+        let per = if thorough { 6 } else { 3 };
+        for n in 0..per {
+            let i = match n {
+                0 => size - 1,
+                1 => size / 2 + 1,
+                _ => rng.gen_range(0..size),
+            };
+            let v: u16 = rng.gen_range(1..=u16::MAX);
+            let delta = if size == 65536 { 0 } else { size * rng.gen_range(0..(65536 / size)) };
+            let delta = if n == 0 && size < 65536 { 65536 - size } else { delta };
+            let pos = if size >= 32768 { 0 } else { *[0usize, size].choose(&mut rng).unwrap() };
+            let trunc = match n {
+                0 => size,
+                1 => size - 1,
+                _ => rng.gen_range(1..=size),
+            };
+            let nsh = pos + size + 1;
+            let e = engines[(si + n + seed as usize) % engines.len()];
+            // fft of the impulse
+            let mut input = vec![[0u8; 64]; nsh];
+            for slot in [0usize, 31] {
+                input[pos + i][slot] = v as u8;
+                input[pos + i][slot + 32] = (v >> 8) as u8;
+            }
+            let c = XfCase { prim: "fft", nsh, pos, size, trunc, delta, len64: 1 };
+            let mut data = input.clone();
+            let res = std::panic::catch_unwind(std::panic::AssertUnwindSafe(|| with_engine!(e, E, { run_xf::<E>(&c, &mut data) })));
+            let mut o = Obj::new().str("ev", "impulse").str("prim", "fft").str("engine", e).us("nsh", nsh).us("pos", pos).us("size", size).us("trunc", trunc).us("delta", delta).us("i", i).int("v", i64::from(v));
+            o = match res {
+                Ok(()) => o.raw("out0", &ints(data.iter().map(|b| i64::from(sym_at(b, 0))))).raw("out1", &ints(data.iter().map(|b| i64::from(sym_at(b, 31))))),
+                Err(p) => o.raw("fail", &util::panic_json(&util::panic_message(&*p))),
+            };
+            t.line(&o.done());
+            // ifft of the full value vector (produced by the reference engine; the specification re-checks it) must be the impulse
+            if n < 2 {
+                let mut vals = input.clone();
+                let cfull = XfCase { prim: "fft", nsh, pos, size, trunc: size, delta, len64: 1 };
+                run_xf::<reed_solomon_simd::engine::Naive>(&cfull, &mut vals);
+                let ci = XfCase { prim: "ifft", nsh, pos, size, trunc: size, delta, len64: 1 };
+                let mut data = vals.clone();
+                let res = std::panic::catch_unwind(std::panic::AssertUnwindSafe(|| with_engine!(e, E, { run_xf::<E>(&ci, &mut data) })));
+                let mut o = Obj::new().str("ev", "impulse").str("prim", "ifft").str("engine", e).us("nsh", nsh).us("pos", pos).us("size", size).us("trunc", size).us("delta", delta).us("i", i).int("v", i64::from(v))
+                    .raw("in0", &ints(vals.iter().map(|b| i64::from(sym_at(b, 0)))));
+                o = match res {
+                    Ok(()) => o.raw("out0", &ints(data.iter().map(|b| i64::from(sym_at(b, 0))))).raw("out1", &ints(data.iter().map(|b| i64::from(sym_at(b, 31))))),
+                    Err(p) => o.raw("fail", &util::panic_json(&util::panic_message(&*p))),
+                };
+                t.line(&o.done());
+            }
+        }
+    }
+}
+
 // ----------------------------------------------------------------------
 // eval_poly
 
@@ -516,6 +577,7 @@ pub fn main(args: &Args) -> i32 {
             "tables" => tables_family(&mut t, seed, thorough),
             "mul" => mul_family(&mut t, seed, thorough, &engines),
             "xf" => xf_family(&mut t, seed, thorough, &engines),
+            "impulse" => impulse_family(&mut t, seed, thorough, &engines),
             "evalpoly" => eval_family(&mut t, seed, thorough, &engines),
             "xcase" => xcase_family(&mut t, seed, thorough, &engines),
             other => {
